@@ -76,6 +76,26 @@ macro_rules! corpus_impl {
 
 pub fn sym_input<const N: usize>() -> [u8; N] { any() }
 
+/// C20 ghost monitor (only with the `verif_hooks` feature of logos): reset before an attempt chain ...
+pub fn monitor_reset() {
+    #[cfg(feature = "verif_hooks")]
+    logos::verif_hooks::reset();
+}
+/// ... and checked after it.
+pub fn monitor_check() {
+    #[cfg(feature = "verif_hooks")]
+    {
+        use core::sync::atomic::Ordering::Relaxed;
+        use logos::verif_hooks as h;
+        check!(!h::WENT_BACKWARDS.load(Relaxed), "C20: within a match attempt the read offsets never decrease");
+        check!(!h::BELOW_FLOOR.load(Relaxed), "C20: no read before the start of the current attempt");
+        check!(!h::TOO_MANY_READS.load(Relaxed), "C20: at most 4 * bytes examined + 4 reads per attempt");
+        check!(!h::BAD_END.load(Relaxed), "interface: end()/end_to_boundary() called with token_start <= offset <= len (and a char boundary for end())");
+        check!(h::ATTEMPTS.load(Relaxed) >= 1, "C20: the monitor saw the attempt start");
+        cover!(h::TOTAL_READS.load(Relaxed) >= 2, "C20 monitor: at least two reads traced");
+    }
+}
+
 fn is_boundary(inp: &[u8], i: usize) -> bool { i >= inp.len() || !is_cont(inp[i]) }
 
 /// C01/C02/C03/C04/C05 (+C13 via `decide`): one attempt from `start` against the specification.
@@ -91,7 +111,9 @@ pub fn attempt_vs_spec_sk<T: Corpus, const N: usize>(input: &[u8; N], start: usi
     }
     let (exp, exp_cbs, exp_cs, exp_ce) = expected_item_cb(def, input, start, max_skips);
     check!(exp != Exp::Ambiguous, "spec: two equal-priority patterns match the same longest prefix (derive accepted an ambiguous definition, or the corpus table is wrong)");
+    monitor_reset();
     let got = T::run(input, start, false);
+    monitor_check();
     match exp {
         Exp::End => {
             check!(got.res == 0, "C03: next() must return None exactly at the end of input");
